@@ -304,6 +304,19 @@ func helperInjectionRuleSSA(r *Run, rule string) {
 		if fn == nil {
 			continue
 		}
+		// an unexported builder that is handed the "already known" test as a function value is judged where it is
+		// called: walked in line from the constructors, with the predicate each of them passes
+		if !f.Obj.Exported() && len(w.staticCallSites(fn)) > 0 {
+			takesFunc := false
+			for _, prm := range fn.Params {
+				if _, isSig := prm.Type().Underlying().(*types.Signature); isSig {
+					takesFunc = true
+				}
+			}
+			if takesFunc {
+				continue
+			}
+		}
 		var outerP *ssa.Parameter
 		for _, prm := range fn.Params {
 			if namedIs(prm.Type(), modPath, "Context") {
